@@ -12,12 +12,18 @@
     The state space is genuinely finite: two workers, one collector, a
     channel of capacity two, five monotone flags.
 
+    Granularity: one transition per statement that touches shared state
+    (send, close, select, receive). A goroutine-local action ([Exec]
+    returning, reading [alwaysStandby] or [r]) is merged with the shared
+    statement that follows it, which loses no interleaving. An executable's
+    outcome is a configuration value; when it returns is free.
+
     Executable model only; the proofs are in Proofs/Fallback.v. *)
 From Verif Require Import Base.Prelude Gen.FallbackFacts.
 From Coq Require Import FMapPositive.
 Open Scope N_scope.
 
-(** ** Parameters of one call *)
+(** ** Configuration of one call *)
 
 (** What an executable does when it is run: sets a response, returns without
     one, or returns an error. *)
